@@ -188,8 +188,9 @@ fn declared(d: &StructD) -> Vec<Col> {
     all_leaves(d).iter().filter(|(_, s)| !s).map(|(f, _)| Col { name: f.col().to_owned(), ty: f.ty }).collect()
 }
 
-fn has_flatten(d: &StructD) -> bool {
-    d.fields.iter().any(|f| f.flatten.is_some())
+/// `skip_name_checks` on the struct or on any flattened struct inside it
+fn any_snc(d: &StructD) -> bool {
+    d.snc || d.fields.iter().any(|f| f.flatten.as_ref().is_some_and(|i| any_snc(i)))
 }
 
 // ------------------------------------------------------------------------------------------------
@@ -373,7 +374,7 @@ fn db_variants(rng: &mut Rng, d: &StructD, tier: Tier) -> Vec<Vec<Col>> {
         }
     }
     // random mixtures
-    let k = if tier == Tier::Quick { 150 } else { 4000 };
+    let k = if tier == Tier::Quick { 500 } else { 4000 };
     for _ in 0..k {
         let mut c: Vec<Col> = base.clone();
         rng.shuffle(&mut c);
@@ -736,7 +737,7 @@ fn oracle_ser(d: &StructD, db: &[Col], vals: &[Leaf], res: &Result<Vec<Leaf>, St
             }
         }
     }
-    if !d.by_name && !d.snc && !has_flatten(d) && res.is_ok() && !ordered_shape_ok(d, db, is_value && !d.forbid) {
+    if !d.by_name && !any_snc(d) && res.is_ok() && !ordered_shape_ok(d, db, is_value && !d.forbid) {
         ctx.fail("ordered flavor accepted a column list that is not in the declared order");
     }
 }
@@ -756,9 +757,57 @@ fn expected_field(f: &FieldD, cell: &Leaf) -> Result<Leaf, ()> {
     }
 }
 
+/// documented acceptance of by-name deserialization (type check + deserialize)
+fn de_expected_ok(d: &StructD, db: &[Col], cells: &[Leaf]) -> bool {
+    let lv = all_leaves(d);
+    let is_value = d.kind == "value";
+    let active: Vec<&FieldD> = lv.iter().filter(|(_, s)| !s).map(|(f, _)| f).collect();
+    for f in &active {
+        let pos: Vec<usize> = (0..db.len()).filter(|&i| db[i].name == f.col()).collect();
+        match pos.len() {
+            0 => {
+                if !(is_value && f.allow_missing) {
+                    return false;
+                }
+            }
+            1 => {
+                let i = pos[0];
+                if db[i].ty != f.ty {
+                    return false;
+                }
+                match cells.get(i).cloned().unwrap_or(None) {
+                    None => {
+                        if !(f.opt || f.default_when_null) {
+                            return false;
+                        }
+                    }
+                    Some(b) => {
+                        if f.ty == "int" && b.len() != 4 {
+                            return false;
+                        }
+                    }
+                }
+            }
+            _ => return false,
+        }
+    }
+    let excess = db.iter().any(|c| !active.iter().any(|f| f.col() == c.name));
+    if excess && (!is_value || d.forbid) {
+        return false;
+    }
+    // a row must carry a cell for every column
+    is_value || cells.len() >= db.len()
+}
+
 fn oracle_de(d: &StructD, db: &[Col], cells: &[Leaf], res: &Result<Vec<Leaf>, String>, ctx: &mut Ctx) {
     let lv = all_leaves(d);
     let is_value = d.kind == "value";
+    if d.by_name && res.is_ok() != de_expected_ok(d, db, cells) {
+        ctx.fail(match res {
+            Ok(_) => "deserialization accepted what the attributes document as rejected".to_owned(),
+            Err(k) => format!("deserialization rejected ({}) what the attributes document as accepted", k),
+        });
+    }
     let Ok(vals) = res else { return };
     if vals.len() != lv.len() {
         ctx.fail("wrong number of fields in the deserialized struct");
